@@ -48,6 +48,19 @@ pub fn run(ctx: &mut Ctx) -> bool {
     true
 }
 
+/// Replay of a witness that belongs to a fixed family which has no isolated form (one large batch, a
+/// schedule of threads, a thread-exit destructor, an extreme-size list): the whole check is run
+/// again in this one process - every fixed family in full (one partition = everything), the random
+/// part at 1 % - and whatever it reports counts as the reproduction.
+pub fn rerun_fixed(ctx: &mut Ctx) {
+    ctx.shard = 0;
+    ctx.nshards = 1;
+    ctx.scale_pct = 1;
+    ctx.started = std::time::Instant::now();
+    ctx.time_budget = std::time::Duration::from_secs(75);
+    let _ = run(ctx);
+}
+
 /// Re-run one witness. Some(true) = the violation reproduces.
 pub fn replay(ctx: &mut Ctx, j: &J) -> Option<bool> {
     let d = j.get("detail").unwrap_or(j);
